@@ -4,7 +4,7 @@
 cd "$(dirname "$0")/.."
 for r in $(ls refactors | sort -V); do
   [ -f refactors/$r/patch.diff ] || continue
-  git -C "${VERIF_REPO:-/repo}" apply --check refactors/$r/patch.diff 2>/dev/null || { echo "$r: patch does not apply"; continue; }
+  git -C "${VERIF_REPO:-/repo}" apply --check "$(pwd)/refactors/$r/patch.diff" 2>/dev/null || { echo "$r: patch does not apply"; continue; }
   tools/reftest.sh $r | grep -E "rc=[12]|broken" | head -60
   echo "$r done"
 done
